@@ -240,7 +240,7 @@ func gen(t *rapid.T) Case {
 		return c
 	}
 	if c.Kind == "batch" {
-		// 40 short lines of 5-9 random points in a 20x20 box with a tolerance of the box's order: the lines on which the
+		// 120 short lines of 5-9 random points (or of 8-15, grown point by point) in a 20x20 box with a tolerance of the box's order: the lines on which the
 		// scan overshoots and has to back off (each is simplified and judged on its own; most are not simple and only
 		// count for the clauses that do not need simplicity)
 		// rapid's integer and float generators favour small and boundary values, which makes most such lines degenerate
@@ -261,7 +261,7 @@ func gen(t *rapid.T) Case {
 		}
 		grown := next()%4 != 0 // 3 batches in 4: lines grown point by point, each new segment clear of the line so far
 		uni := func() float64 { return 20 * float64(next()>>11) / (1 << 53) }
-		for i := 0; i < 40; i++ {
+		for i := 0; i < 120; i++ {
 			n := 5 + int(next()%5)
 			if grown {
 				n = 8 + int(next()%8)
@@ -813,7 +813,7 @@ func run(c Case) (v vkit.Verdict) {
 func TestProp(t *testing.T) {
 	vkit.Main(t, vkit.Spec[Case]{
 		ID: "C13",
-		Rule: "rapid: 'thin' lines (1 case in 25: 3-12 vertices, x increasing integers, y = m*2^-k with |m| <= 8 and k in {60,...,1060}, tolerance 0 or a few halves of 2^-k; allowance a millionth of 2^-k instead of the one below) and 'poke' lines (1 line case in 6: a shallow bay of three vertices, a detour of 1-70 vertices (a quarter: up to 515, next to a multiple of 16/32/64/128) clear of it, a last segment entering the bay through its base; tolerance 1.05-3 times the bay's depth, so that the short cut across the bay is within tolerance but crossed by a segment that comes that many places later); batches of 40 lines in a 20x20 box with tolerance 1-10 (1 case in 8; 5-9 uniform random points, or 8-15 points grown one by one with every new segment clear of the line so far - simple, criss-crossing lines on which the scan overshoots and backs off; coordinates are a splitmix64 expansion of one drawn 64-bit value because rapid's own number generators favour small and boundary values), and line strings of 0-40 vertices (1 in 40: 200-600), in 1 case of 3 handed to Simplify multiplied exactly by 2^k (k in +-40 or +-300; coordinates and tolerance; the output is divided by 2^k again, so the oracle and its margins work at unit scale): simple by construction via self-avoiding growth (random walk, outward/inward spiral, zig-zag, hook that " +
+		Rule: "rapid: 'thin' lines (1 case in 25: 3-12 vertices, x increasing integers, y = m*2^-k with |m| <= 8 and k in {60,...,1060}, tolerance 0 or a few halves of 2^-k; allowance a millionth of 2^-k instead of the one below) and 'poke' lines (1 line case in 6: a shallow bay of three vertices, a detour of 1-70 vertices (a quarter: up to 515, next to a multiple of 16/32/64/128) clear of it, a last segment entering the bay through its base; tolerance 1.05-3 times the bay's depth, so that the short cut across the bay is within tolerance but crossed by a segment that comes that many places later); batches of 120 lines in a 20x20 box with tolerance 1-10 (1 case in 8; 5-9 uniform random points, or 8-15 points grown one by one with every new segment clear of the line so far - simple, criss-crossing lines on which the scan overshoots and backs off; coordinates are a splitmix64 expansion of one drawn 64-bit value because rapid's own number generators favour small and boundary values), and line strings of 0-40 vertices (1 in 40: 200-600), in 1 case of 3 handed to Simplify multiplied exactly by 2^k (k in +-40 or +-300; coordinates and tolerance; the output is divided by 2^k again, so the oracle and its margins work at unit scale): simple by construction via self-avoiding growth (random walk, outward/inward spiral, zig-zag, hook that " +
 			"curls back over its own chord), arbitrary random/lattice vertex sequences (duplicates, self-crossing), lengths 0,1,2 weighted; tolerance from " +
 			"{0,1e-12,0.5,1,1e9,+Inf} or uniform; multi-line strings, polygons and multi-polygons (star polygons with subdivided edges, random rings). Oracle: " +
 			"termination (watchdog), existence of an increasing index map showing the output is a subsequence keeping first and last vertex with every dropped " +
